@@ -22,11 +22,11 @@ ASSUMPTIONS = [
     "the returned step is matched to a logged evaluation point within 8 ulp of x0 + alpha*d",
     "max feasible step recomputed independently; alpha may exceed it by at most 4 eps relative",
 ]
-FAMS = ("qp", "oscillating", "sinus", "exp_wall", "qp_quartic", "quantized", "offset", "offset")
+FAMS = ("qp", "oscillating", "sinus", "exp_wall", "qp_quartic", "quantized", "offset", "offset", "partial_nan", "partial_inf")
 
 
 def floors(tier):
-    return {"calls": 2500, "multi_trial_calls": 500, "returned_none": 40, "points_checked": 6000, "step_at_max": 100, "__nontrivial__": 500}
+    return {"calls": 2500, "multi_trial_calls": 500, "returned_none": 40, "points_checked": 6000, "step_at_max": 100, "calls_with_a_nan_trial_value": 80, "__nontrivial__": 500}
 
 
 def make_objective(rng, fam, n):
@@ -93,6 +93,8 @@ def judge_call(out, x0, d, lb, ub, f0, cap, above_iter, max_user, ret, log, wher
     if len(fpts) > cap:
         out.violate("budget_exceeded", f"{where}: {len(fpts)} objective evaluations with cap {cap}", **tags)
         return
+    if any(v != v for _, v in fpts):
+        out.count("calls_with_a_nan_trial_value")
     if len(fpts) >= 2 or ret is None:
         out.count("multi_trial_calls" if len(fpts) >= 2 else "first_trial_failed")
     # 3. return value
@@ -135,7 +137,7 @@ def cases(tier, seed):
 def one_call(rng):
     fam = gen.pick(rng, FAMS)
     n = int(rng.integers(1, 6))
-    f, g = make_objective(rng, fam, n)
+    f, g = make_objective(rng, "qp" if fam.startswith("partial") else fam, n)
     lb, ub = gen.rand_box(rng, n, gen.pick(rng, ["mixed", "boxed", "narrow", "lower", "upper", "none", "mixed"]))
     x0 = gen.rand_x0(rng, lb, ub, gen.pick(rng, ["interior", "face", "vertex"]))
     if fam == "exp_wall":
@@ -145,6 +147,19 @@ def one_call(rng):
     if fam == "offset":
         t = t / max(float(np.linalg.norm(g0)), 1e-300) * float(np.exp(rng.uniform(-6, 2)))
     d = np.clip(x0 - t * g0, lb, ub) - x0
+    if fam.startswith("partial"):
+        # an objective defined on part of the box only (sqrt / log of a quantity that turns negative): outside a ball around the
+        # start it returns NaN (or +inf) and a NaN gradient; the long trial steps leave the domain, the short ones do not
+        rho = float(np.exp(rng.uniform(np.log(0.05), np.log(2.0)))) * max(float(np.linalg.norm(d)), 1e-300)
+        bad = float("nan") if fam == "partial_nan" else float("inf")
+        fq, gq, xs = f, g, x0.copy()
+
+        def f(x, fq=fq, xs=xs, rho=rho, bad=bad):
+            return fq(x) if float(np.linalg.norm(x - xs)) <= rho else bad
+
+        def g(x, gq=gq, xs=xs, rho=rho):
+            return gq(x) if float(np.linalg.norm(x - xs)) <= rho else np.full(x.shape, np.nan)
+
     return fam, n, f, g, lb, ub, x0, d
 
 
